@@ -2589,6 +2589,48 @@ fn write_array_data(
             write_options,
         )?;
         return Ok(offset);
+    } else if let DataType::Union(_, mode) = data_type {
+        // A union reached through a sliced parent carries an offset: write only the
+        // logical range of the type ids (and offsets), and of the children of a sparse union
+        let (union_offset, union_len) = (array_data.offset(), array_data.len());
+        let type_ids = array_data.buffers()[0].slice_with_length(union_offset, union_len);
+        offset = encode_sink_buffer(
+            type_ids,
+            meta,
+            sink,
+            offset,
+            compression_codec,
+            ipc_write_context,
+            write_options.alignment,
+        )?;
+        if matches!(mode, UnionMode::Dense) {
+            let offsets = array_data.buffers()[1].slice_with_length(union_offset * 4, union_len * 4);
+            offset = encode_sink_buffer(
+                offsets,
+                meta,
+                sink,
+                offset,
+                compression_codec,
+                ipc_write_context,
+                write_options.alignment,
+            )?;
+        }
+        for child in array_data.child_data() {
+            let child = match mode {
+                UnionMode::Sparse => child.slice(union_offset, union_len),
+                UnionMode::Dense => child.clone(),
+            };
+            offset = write_array_data(
+                &child,
+                meta,
+                sink,
+                offset,
+                compression_codec,
+                ipc_write_context,
+                write_options,
+            )?;
+        }
+        return Ok(offset);
     } else {
         for buffer in array_data.buffers() {
             offset = encode_sink_buffer(
